@@ -4,10 +4,13 @@ package main
 // direct, model-independent oracles.
 
 import (
+	"fmt"
+	"reflect"
 	"regexp"
 	"sort"
 	"strings"
 
+	getoptions "github.com/DavidGamba/go-getoptions"
 	"github.com/DavidGamba/go-getoptions/text"
 )
 
@@ -255,12 +258,104 @@ func (obs *ParseObs) features() {
 			add("C19", "remaining-on-error", "a failed Parse returned a non-nil remaining list")
 		}
 	}
+	// C08 (needs no parser knowledge): a planted token that is no prefix of any declared name and
+	// looks like an option can never be a value; before any `--`, without require-order anywhere
+	// and with one unknown mode for the whole tree it must make Parse fail (Fail), or be warned
+	// about and kept (Warn), or be kept (Pass) -- unless Parse fails for another reason.
+	um := p.Root.UnknownMode
+	if um < 0 {
+		um = 0
+	}
+	uniform := !anyCmd(p.Root, func(c *CmdDef) bool {
+		m := c.UnknownMode
+		if m < 0 {
+			m = um // inherited at creation unless the parent sets its mode late
+		}
+		return m != um || c.RequireOrder || c.SettingsLate
+	})
+	if uniform {
+		for i, t := range argv {
+			if t == "--" {
+				break
+			}
+			if strings.HasPrefix(t, "--qq-unk") {
+				_ = i
+				switch {
+				case obs.HasErr:
+				case um == 0:
+					add("C08", "fail-mode-no-error", "Fail mode: unknown option "+t+" was accepted without error")
+				default:
+					found := false
+					for _, r := range obs.Remaining {
+						if r == t {
+							found = true
+						}
+					}
+					if !found {
+						add("C08", "unknown-not-kept", "unknown option "+t+" is not in remaining")
+					}
+					if um == 1 && !strings.Contains(obs.Writer, strings.TrimPrefix(strings.SplitN(t, "=", 2)[0], "--")) {
+						add("C08", "no-warning", "Warn mode: no warning names "+t)
+					}
+				}
+			}
+		}
+	}
 	if obs.Panic != "" {
 		add("C19", "panic", "panic: "+obs.Panic)
 	}
 	if obs.Hang {
 		add("C19", "hang", "Parse did not return within the deadline")
 	}
+}
+
+// accessPaths - C06: the pointer returned at definition (or the *Var target), Value(x), Called(x) and
+// CalledAs(x) through every key of a root-level option must agree with each other and with the
+// option object itself.
+func (obs *ParseObs) accessPaths(b *Built, p *ProgDef, post *getoptions.VerifDump) {
+	byKey := map[string]*getoptions.VerifOption{}
+	for i, k := range post.Root.OptionKeys {
+		byKey[k] = post.Options[post.Root.OptionIDs[i]]
+	}
+	add := func(what string) {
+		obs.Oracle["C06"] = append(obs.Oracle["C06"], OracleHit{Key: "access-path", What: what})
+	}
+	for _, o := range append(append([]OptDef{}, p.Root.Opts...), p.Root.LateOpts...) {
+		ptr := b.Ptrs["\x00"+o.Name]
+		if ptr == nil {
+			continue
+		}
+		pv := reflect.ValueOf(ptr).Elem().Interface()
+		d := byKey[o.Name]
+		if d == nil {
+			add("option " + o.Name + " missing from the root table")
+			continue
+		}
+		for _, k := range append([]string{o.Name}, o.Aliases...) {
+			v := b.Opt.Value(k)
+			if fmt.Sprintf("%#v", normNil(pv)) != fmt.Sprintf("%#v", normNil(v)) {
+				add(fmt.Sprintf("Value(%q)=%#v differs from the definition pointer %#v", k, v, pv))
+			}
+			if b.Opt.Called(k) != d.Called {
+				add(fmt.Sprintf("Called(%q)=%v but the option object says %v", k, b.Opt.Called(k), d.Called))
+			}
+			if b.Opt.CalledAs(k) != d.UsedAlias {
+				add(fmt.Sprintf("CalledAs(%q)=%q but the option object says %q", k, b.Opt.CalledAs(k), d.UsedAlias))
+			}
+		}
+	}
+}
+
+// normNil maps nil and empty slices/maps to the same value for comparison
+func normNil(v interface{}) interface{} {
+	rv := reflect.ValueOf(v)
+	switch rv.Kind() {
+	case reflect.Slice, reflect.Map:
+		if rv.Len() == 0 {
+			return "empty"
+		}
+	}
+	return v
 }
 
 func equalStrings(a, b []string) bool {
